@@ -44,6 +44,16 @@ type MapAlt struct {
 }
 type VMap struct{ Alts []MapAlt }
 type VStruct struct{ F []Value }
+
+// VRefl models the reflect.Value of the access path goderive emits for unexported fields of imported
+// structs: reflect.Indirect(reflect.ValueOf(p)).FieldByName("x").UnsafeAddr(). IsPtr: the Value holds the
+// pointer P itself (result of ValueOf); otherwise P is the address of the storage the Value refers to and T
+// that storage's type. A Value without alternatives in P is the zero Value.
+type VRefl struct {
+	IsPtr bool
+	P     *VPtr
+	T     types.Type
+}
 type VArr struct{ E []Value }
 type VTuple struct{ E []Value }
 type FuncAlt struct {
@@ -256,6 +266,12 @@ func (ex *Exec) merge(c *Term, a, b Value) Value {
 		}
 	}
 	switch x := a.(type) {
+	case *VRefl:
+		y := b.(*VRefl)
+		if x.IsPtr != y.IsPtr || !types.Identical(x.T, y.T) {
+			panic(unsupported("merge of reflect.Values of different shape"))
+		}
+		return &VRefl{IsPtr: x.IsPtr, P: ex.merge(c, x.P, y.P).(*VPtr), T: x.T}
 	case *VBV:
 		y := b.(*VBV)
 		if x.T == y.T {
